@@ -54,9 +54,11 @@ def to_rat(v):
 
 
 class Sym:
-    def __init__(self, module, param_types, paths=None, guards=(), depth=0):
+    def __init__(self, module, param_types, paths=None, guards=(), depth=0, vocab=None):
         self.mod, self.ptypes, self.paths, self.guards, self.depth = module, dict(param_types), dict(paths or {}), set(guards), depth
         self.used_paths = []
+        # Lean names for float abs / max / min / round (the vocabulary of the model the bridge theorem targets)
+        self.vocab = dict(vocab or {})
 
     # ------------------------------------------------------------------ expressions
     def path_param(self, e):
@@ -143,6 +145,10 @@ class Sym:
             return (a[0], '(if %s then %s else %s)' % (c, a[1], b[1]))
         if isinstance(e, ast.Call):
             return self.call(e, env)
+        if isinstance(e, ast.Tuple) and e.elts and not any(isinstance(x, ast.Starred) for x in e.elts):
+            vs = [self.expr(x, env) for x in e.elts]
+            if all(v[0] in ('int', 'float') for v in vs):
+                return ('tuple:' + ' × '.join(LEAN_T[v[0]] for v in vs), '(' + ', '.join(v[1] for v in vs) + ')')
         raise Untranslatable(type(e).__name__ + ' ' + ast.unparse(e)[:60])
 
     def call(self, e, env):
@@ -171,18 +177,30 @@ class Sym:
             if t == 'int':
                 return (t, '((Int.natAbs %s : Nat) : Int)' % s)
             if t == 'float':
+                if self.vocab.get('abs'):
+                    return (t, '(%s %s)' % (self.vocab['abs'], s))
                 return (t, '(if %s < 0 then -%s else %s)' % (s, s, s))
+        if fn == 'round' and len(args) == 1 and self.vocab.get('round'):
+            t, s = self.expr(args[0], env)
+            if t == 'int':
+                return (t, s)
+            if t == 'float':
+                return ('int', '(%s %s)' % (self.vocab['round'], s))     # Python 3 round(): half to even, an int
         if fn in ('min', 'max') and len(args) == 2:
             a, b = self.expr(args[0], env), self.expr(args[1], env)
+            if 'float' in (a[0], b[0]) and a[0] in ('int', 'float') and b[0] in ('int', 'float') and self.vocab.get(fn):
+                # (a mixed int/float pair returns one of the two VALUES; as rationals they are what Python returns)
+                return ('float', '(%s %s %s)' % (self.vocab[fn], to_rat(a), to_rat(b)))
             if a[0] == b[0] and a[0] in ('int', 'float'):
                 # Python's min(a, b) = b if b < a else a and Lean's `min a b` = if a ≤ b then a else b are the same VALUE
                 # on a linear order (they differ only in which of two equal arguments is returned)
                 return (a[0], '(%s %s %s)' % (fn, a[1], b[1]))
-        # private helper of the same module: execute it symbolically with the actual arguments
+        # private helper of the same module (or a sibling local function): execute it symbolically with the actual arguments
         if isinstance(e.func, ast.Name) and e.func.id not in env:
             callee = getattr(self.mod, e.func.id, None)
-            if inspect.isfunction(callee) and callee.__module__ == self.mod.__name__ and self.depth < 4:
-                node = ast.parse(textwrap.dedent(inspect.getsource(callee))).body[0]
+            sib = getattr(self, 'siblings', {}).get(e.func.id)
+            if (sib is not None or (inspect.isfunction(callee) and callee.__module__ == self.mod.__name__)) and self.depth < 4:
+                node = sib if sib is not None else ast.parse(textwrap.dedent(inspect.getsource(callee))).body[0]
                 names = [a.arg for a in node.args.args]
                 defaults = dict(zip(names[len(names) - len(node.args.defaults):], node.args.defaults))
                 if len(args) > len(names) or node.args.vararg or node.args.kwarg:
@@ -199,12 +217,24 @@ class Sym:
                         if nm not in defaults:
                             raise Untranslatable('missing argument %s of %s' % (nm, fn))
                         cenv[nm] = self.expr(defaults[nm], {})
-                sub = Sym(self.mod, {}, self.paths, self.guards, self.depth + 1)
+                sub = Sym(self.mod, {}, self.paths, self.guards, self.depth + 1, self.vocab)
+                sub.siblings = getattr(self, 'siblings', {})
+                sub.closure = getattr(self, 'closure', {})
+                cenv.update({k: v for k, v in sub.closure.items() if k not in cenv})
                 tree = sub.block(node.body, cenv, False, [])
-                if tree[0] != 'ret':
-                    raise Untranslatable('helper %s branches or raises' % fn)
-                return tree[1]
+                return self.tree_value(tree, fn)
         raise Untranslatable('call %s' % ast.unparse(e)[:60])
+
+    def tree_value(self, tree, fn):
+        """the value of a helper whose every path returns: a decision tree of returns as a conditional VALUE"""
+        if tree[0] == 'ret':
+            return tree[1]
+        if tree[0] == 'if':
+            a, b = self.tree_value(tree[2], fn), self.tree_value(tree[3], fn)
+            if a[0] != b[0]:
+                a, b = ('float', to_rat(a)), ('float', to_rat(b))
+            return (a[0], '(if %s then %s else %s)' % (tree[1], a[1], b[1]))
+        raise Untranslatable('helper %s raises' % fn)
 
     def cond(self, e, env):
         if isinstance(e, ast.Compare):
@@ -263,6 +293,23 @@ class Sym:
                 if isinstance(s, ast.AugAssign) and isinstance(s.target, ast.Name):
                     env[s.target.id] = self.expr(ast.BinOp(left=ast.Name(id=s.target.id, ctx=ast.Load()), op=s.op, right=s.value), env)
                     continue
+                if isinstance(s, ast.If) and not any(isinstance(x, (ast.Return, ast.Raise)) for b in (s.body, s.orelse)
+                                                     for st in b for x in ast.walk(st)):
+                    # both branches fall through: merge the environments into conditional VALUES (phi nodes) instead
+                    # of duplicating the continuation — `if c: x += 1` becomes x := if c then x + 1 else x
+                    c = self.cond(s.test, env)
+                    e1, e2 = self.straight(s.body, env), self.straight(s.orelse, env)
+                    for k in set(e1) | set(e2):
+                        a, b = e1.get(k), e2.get(k)
+                        if a == b:
+                            env[k] = a
+                        elif a is None or b is None or 'unknown' in (a[0], b[0]):
+                            env[k] = ('unknown', k)
+                        else:
+                            if a[0] != b[0]:
+                                a, b = ('float', to_rat(a)), ('float', to_rat(b))
+                            env[k] = (a[0], '(if %s then %s else %s)' % (c, a[1], b[1]))
+                    continue
                 if isinstance(s, ast.If):
                     c = self.cond(s.test, env)
                     then = self.block(list(s.body) + list(rest), env, partial, want)
@@ -288,12 +335,17 @@ class Sym:
             return self._cut(env, want)
         raise Untranslatable('control falls off the end')
 
+    def straight(self, stmts, env):
+        """environment after a statement list without return / raise (assignments and nested fall-through ifs)"""
+        r = self.block(list(stmts) + [ast.Pass()], env, True, [])
+        return r[2]
+
     @staticmethod
     def _cut(env, want):
         missing = [w for w in want if env.get(w, ('unknown',))[0] == 'unknown']
         if missing:
             raise Untranslatable('local %s is not computed by the arithmetic prefix of the function' % ', '.join(missing))
-        return ('cut', {w: env[w] for w in want})
+        return ('cut', {w: env[w] for w in want}, dict(env))
 
 
 def emit_tree(tree, indent, select=None):
@@ -326,13 +378,24 @@ def _wrap_ok(tree):
 LEAN_T = {'int': 'Int', 'float': 'Rat', 'bool': 'Prop'}
 
 
-def translate(fn, module, lean_name, params, paths=None, guards=(), export=None, rounding=True):
+def translate(fn, module, lean_name, params, paths=None, guards=(), export=None, rounding=True, nested=None, vocab=None):
     """fn: function object; params: ordered {python parameter: 'int'|'float'} for the parameters that are numbers
     (others must only occur inside `paths`); paths: {python expression text: (lean parameter, type)};
     export: None (whole function, must return / raise on every path) or a list of local names (partial mode).
     -> list of (lean definition name, text, lean parameter list)"""
     node = ast.parse(textwrap.dedent(inspect.getsource(fn))).body[0]
-    sym = Sym(module, params, paths, guards)
+    if nested:
+        # a function defined inside `fn` (closure variables are declared like parameters by the caller)
+        inner = [x for x in ast.walk(node) if isinstance(x, ast.FunctionDef) and x.name == nested and x is not node]
+        if len(inner) != 1:
+            raise Untranslatable('local function %s of %s not found' % (nested, fn.__name__))
+        outer = node
+        node = inner[0]
+    sym = Sym(module, params, paths, guards, vocab=vocab)
+    if nested:
+        sym.siblings = {x.name: x for x in ast.walk(outer) if isinstance(x, ast.FunctionDef) and x is not outer}
+        own = {a.arg for a in node.args.args}
+        sym.closure = {p: (t, p) for p, t in params.items() if p not in own}     # closure variables, visible in siblings too
     env = {p: (t, p) for p, t in params.items()}
     tree = sym.block(node.body, env, export is not None, export or [])
     # signature: declared parameters, then every declared path parameter in DECLARED order (stable under reordering of uses)
@@ -345,7 +408,7 @@ def translate(fn, module, lean_name, params, paths=None, guards=(), export=None,
     for sel in (export or [None]):
         raises = _has_raise(tree)
         body, ty, _ = emit_tree(_wrap_ok(tree) if raises else tree, 1, sel)
-        lty = LEAN_T[ty or 'int']
+        lty = ty[6:] if (ty or '').startswith('tuple:') else LEAN_T[ty or 'int']
         name = lean_name if sel is None else '%s_%s' % (lean_name, sel)
         if not rounding and re.search(r'\bR\b', body):
             raise Untranslatable('float arithmetic in %s (declared integer-only)' % lean_name)
